@@ -88,12 +88,14 @@ def build_sites(objs, rng):
                 var, op, val = m["conds"][0]
                 if op == "==" :
                     sites["MISSING_ENUMERATOR"].append(Site("MISSING_ENUMERATOR", o["file"], line_edit(o["file"], m["line"], lambda s, val=val: re.sub(r"\b" + re.escape(val) + r"\b", "NO_SUCH_ENUMERATOR_XYZ", s, count=1)), where))
-                    sites["ENUM_HAS_BITWISE_AND"].append(Site("ENUM_HAS_BITWISE_AND", o["file"], line_edit(o["file"], m["line"], lambda s: s.replace("==", "&", 1)), where))
+                    if len(m["conds"]) == 1:
+                      sites["ENUM_HAS_BITWISE_AND"].append(Site("ENUM_HAS_BITWISE_AND", o["file"], line_edit(o["file"], m["line"], lambda s: s.replace("==", "&", 1)), where))
                     if len(m["conds"]) > 1:
                         sites["NON_MATCHING_IF_VARIABLES"].append(Site("NON_MATCHING_IF_VARIABLES", o["file"], line_edit(o["file"], m["line"], lambda s, var=var: re.sub(r"\|\|\s*" + var + r"\b", "|| other_variable_xyz", s, count=1)), where))
                 if op == "&":
                     sites["MISSING_ENUMERATOR"].append(Site("MISSING_ENUMERATOR", o["file"], line_edit(o["file"], m["line"], lambda s, val=val: re.sub(r"\b" + re.escape(val) + r"\b", "NO_SUCH_ENUMERATOR_XYZ", s, count=1)), where))
-                    sites["FLAG_HAS_EQUALS"].append(Site("FLAG_HAS_EQUALS", o["file"], line_edit(o["file"], m["line"], lambda s: s.replace("&", "==", 1)), where))
+                    if len(m["conds"]) == 1:
+                      sites["FLAG_HAS_EQUALS"].append(Site("FLAG_HAS_EQUALS", o["file"], line_edit(o["file"], m["line"], lambda s: s.replace("&", "==", 1)), where))
         # object-level rules
         where = f"{o['kind']} {o['name']} ({tagk})"
         if o["kind"] == "struct":
@@ -137,7 +139,9 @@ def build_sites(objs, rng):
             sites["DUPLICATE_DEFINER_VALUES"].append(Site("DUPLICATE_DEFINER_VALUES", d["file"], line_edit(d["file"], d["line"], lambda s: s) if False else (lambda root, d=d, f0=f0, f1=f1: _replace_value(root, d, f1, f0["value"])), where))
         sites["INVALID_DEFINER_VALUE"].append(Site("INVALID_DEFINER_VALUE", d["file"], (lambda root, d=d, f1=f1: _replace_value(root, d, f1, "asdf_not_a_value")), where))
         if d["ty"] == "u8":
-            sites["DEFINER_WITH_INVALID_VALUE"].append(Site("DEFINER_WITH_INVALID_VALUE", d["file"], (lambda root, d=d, f1=f1: _replace_value(root, d, f1, "0x1FF")), where))
+            sites["DEFINER_WITH_INVALID_VALUE"].append(Site("DEFINER_WITH_INVALID_VALUE", d["file"], (lambda root, d=d, f1=f1: _replace_value(root, d, f1, "0x1FF")), where + " value 0x1FF"))
+            # boundary: the smallest value that does not fit the base type
+            sites["DEFINER_WITH_INVALID_VALUE"].append(Site("DEFINER_WITH_INVALID_VALUE", d["file"], (lambda root, d=d, f1=f1: _replace_value(root, d, f1, "0x100")), where + " value 0x100 (smallest out-of-range)"))
         sites["INVALID_INTEGER_TYPE"].append(Site("INVALID_INTEGER_TYPE", d["file"], line_edit(d["file"], d["line"], lambda s, t=d["ty"]: re.sub(r":\s*" + t + r"\b", ": f32", s, count=1)), where))
         if d["kind"] == "flag":
             sites["FLAG_WITH_SIGNED_TYPE"].append(Site("FLAG_WITH_SIGNED_TYPE", d["file"], line_edit(d["file"], d["line"], lambda s, t=d["ty"]: re.sub(r":\s*" + t + r"\b", ": i32", s, count=1)), where))
@@ -204,7 +208,8 @@ def run(tier, seed):
                 if len(samples) < 6:
                     samples.append({"rule": rule, "site": s.where, "file": os.path.relpath(s.path, REPO), "expected_status": codes[rule], "status": rc})
                 if rc != codes[rule]:
-                    rep.violation(f"C16/{rule}/status-{rc}", f"violating {rule} at {s.where} ({os.path.relpath(s.path, REPO)}) gives exit status {rc}, the rule's status is {codes[rule]}",
+                    key = f"C16/{rule}/status-{rc}" + ("/boundary-2^n" if "smallest out-of-range" in s.where else "")
+                    rep.violation(key, f"violating {rule} at {s.where} ({os.path.relpath(s.path, REPO)}) gives exit status {rc}, the rule's status is {codes[rule]}",
                                   {"rule": rule, "site": s.where, "file": os.path.relpath(s.path, REPO), "expected_status": codes[rule], "status": rc, "log": out[-800:],
                                    "input": "apply the described edit to the wowm file and run the generator"})
         # overlapping versions: pairs of version strings on two copies of one object
